@@ -186,6 +186,17 @@ def lemma_lines(params):
         ("continuation line is not a field line", "disjoint", cont, R.union(single, multi), "cont"),
         ("a field line is not continuation data... (informational)", "info", R.concat(name, R.lit(": "), value1), multidata, "first"),
     ]
+    try:
+        # bytes side: a continuation line is never taken for PGP armor or a paragraph separator
+        gpg = R.match(Deb822._gpgre)
+        blank_w = R.full(Deb822._blank_line_whitespace)
+        ascii_val = R.ranges_re([(32, 126), (9, 9)])
+        ascii_nonblank = R.ranges_re([(33, 126)])
+        cont_b = R.concat(R.chars(" \t"), R.star(ascii_val), ascii_nonblank, R.star(ascii_val))
+        checks.append(("continuation line is never a PGP armor line", "disjoint", cont_b, gpg, "cont"))
+        checks.append(("continuation line with text is never a blank line", "disjoint", cont_b, blank_w, "cont"))
+    except R.NotEncodable:
+        S.counts["not_encodable"] += 1
     for nm, kind, a, b, where in checks:
         if kind == "info":
             continue
@@ -241,6 +252,7 @@ def partitions(tier, seed):
         add("two", "first", "lines", False, False, "Deb822", 1)
         add("two", "cont", "bin-iter", False, True, "Deb822", 2)
         add("multi", "first", "lines-nl", True, False, "Deb822", 2)
+        add("emptyfirst", "cont", "str", False, False, "Deb822", 3)
     else:
         k = 0
         for tpl in TEMPLATES:
